@@ -11,7 +11,7 @@ import (
 
 var mixC04 = Mix{Set: 22, Delete: 8, Get: 3, GetItem: 3, MinMax: 2, Visit: 3, Flush: 7, Evict: 5,
 	Snapshot: 8, SnapRead: 14, SnapClose: 6, SnapRevert: 3, SnapOfSnap: 3, SnapMutate: 3,
-	SetCollNew: 2, SetCollExisting: 2, RemoveColl: 2, Close: 1, PinVisit: 2, ResumeVisit: 3}
+	SetCollNew: 2, SetCollExisting: 2, RemoveColl: 2, Close: 1, PinVisit: 2, ResumeVisit: 3, CollWrite: 2}
 
 func permutations(n int) [][]int {
 	var res [][]int
@@ -73,6 +73,14 @@ func runC04(ctx *Ctx, idx int) Result {
 	cfg := driver.Config{MemOnly: r.P(20), ReadbackK: 1, Walk: true, Churn: r.P(60)}
 	hc := HistCfg{Steps: r.Range(25, 70), NColls: r.Range(1, 3), NKeys: r.Range(4, 12), KeyClass: gen.KeysShort, ValClass: gen.ValsMixed,
 		Prio: gen.PrioRegime(r.Intn(int(gen.NumPrioRegimes))), Mix: mixC04, MaxSnaps: 5}
+	if idx%3 == 0 {
+		// comparators of one closure family, supplied through KeyCompareForCollection at re-loads; a
+		// name may get another member when its collection is replaced while empty or re-created, so
+		// that what is durable under a name and what is live under it can be ordered differently
+		hc.RotCmp, hc.KeyClass = true, gen.KeysDigits
+		hc.Mix.SetCollExisting, hc.Mix.RemoveColl, hc.Mix.SetCollNew, hc.Mix.Delete = 4, 4, 5, 14
+		ctx.Stats["c04.comparator-family-cases"]++
+	}
 	h := NewHist(r, cfg, hc, fmt.Sprintf("c04-%d", idx))
 	h.Run()
 	ctx.Add(h.E)
@@ -89,7 +97,7 @@ func runC04Release(ctx *Ctx, idx int, r *gen.R) Result {
 	SeedGlobalRand(CaseSeed(ctx.Seed, "C04-base", base))
 	cfg := driver.Config{MemOnly: base%4 == 3, ReadbackK: 1, Walk: true, Churn: true}
 	hc := HistCfg{NColls: 1 + base%2, NKeys: 6, KeyClass: gen.KeysShort, ValClass: gen.ValsShort, Prio: gen.PrioDistinct,
-		Mix: Mix{Set: 10, Delete: 4, Flush: 2, Evict: 2}}
+		Mix: Mix{Set: 10, Delete: 4, Flush: 2, Evict: 2, CollWrite: 2}}
 	h := NewHist(br, cfg, hc, fmt.Sprintf("c04r-%d", idx))
 	e := h.E
 	steps := func(n int) {
